@@ -3,7 +3,7 @@
    length test the code makes; where the code makes none the model returns [Panic]. *)
 From Coq Require Import List NArith ZArith Bool.
 Import ListNotations.
-From VF Require Import Base Label Wire Wire_proofs.
+From VF Require Import Base Label Wire Wire_proofs Stream Stream_proofs.
 
 (* for every byte string, configuration and behaviour of the AEAD / decompressor, the repaired
    packet path does not panic *)
@@ -14,6 +14,25 @@ Print Assumptions C13_no_panic_packet.
 Theorem C13_decrypt_no_panic : forall open c msg aad, fixed c = true -> decrypt_payload open c msg aad <> Panic.
 Proof. intro open. exact (decrypt_no_panic open (fun _ => None)). Qed.
 Print Assumptions C13_decrypt_no_panic.
+
+(* stream path: the repaired reader never panics on any bytes, and a declared encrypted length beyond
+   the cap is refused on the header alone *)
+Theorem C13_no_panic_stream : forall open decomp c label b, fixed c = true -> read_stream open decomp c label b <> SPanic.
+Proof. exact read_stream_no_panic. Qed.
+Print Assumptions C13_no_panic_stream.
+
+Theorem C13_caps_first : forall open decomp c label l1 l2 l3 l4 rest,
+  enc_on c = true -> (max_push_state_bytes < rd32 l1 l2 l3 l4)%N ->
+  read_stream open decomp c label (t_encrypt :: l1 :: l2 :: l3 :: l4 :: rest) = SErr 31.
+Proof. intros open decomp. exact (stream_cap_before_read (fun _ _ _ _ => []) open (fun x => x) decomp). Qed.
+Print Assumptions C13_caps_first.
+
+(* the pinned reader indexed an empty decrypted plaintext *)
+Example C13_empty_plain_refuted :
+  let open := fun (_ : N) (_ _ _ : bytes) => Some (@nil N) in
+  read_stream open (fun _ => None) (mkP [] false [1%N] true true 1 false false) []
+              (t_encrypt :: 0 :: 0 :: 0 :: 29 :: 1 :: repeat 0 28)%N = SPanic.
+Proof. exact empty_plain_panic_refuted. Qed.
 
 (* the pinned code strips PKCS7 padding without validating it: a version-0 frame whose plaintext ends
    in a byte larger than its length slices with a negative bound *)
